@@ -34,7 +34,7 @@ fn pick(k: u8) -> String {
     }
 }
 
-// @harness name=valueref_create_remove kind=Bk tier=quick props=C08,C01 bound="pool grown from empty by at most 2 prior strings from {'a','b'}; value from {Null, any Int, '', 'a', 'b'}" desc="ValueRef::create pairs every string cell with exactly one pool reference and never leaves a live pool entry holding the empty string (the empty string is stored as the format's null); to_value reads the same value back ('' and null identified); remove returns the pool to its previous counts"
+// @harness name=valueref_create_remove kind=Bk tier=thorough props=C08,C01 bound="pool grown from empty by at most 2 prior strings from {'a','b'}; value from {Null, any Int, '', 'a', 'b'}" desc="ValueRef::create pairs every string cell with exactly one pool reference and never leaves a live pool entry holding the empty string (the empty string is stored as the format's null); to_value reads the same value back ('' and null identified); remove returns the pool to its previous counts"
 #[kani::proof]
 #[kani::stub(alloc::fmt::format, stub_format)]
 #[kani::unwind(5)]
